@@ -482,6 +482,11 @@ def npS(p):
 
 
 # ------------------------------------------------------------------ scenarios
+def _shifted(p):
+    """another density of the same shape (same class): the argument of a later, unrelated request to the same object"""
+    return type(p)(Sigma=2.0 * p.Sigma, mu=p.mu + 1.0)
+
+
 def _neg(idx, mask, D):
     """the same coordinates, those flagged in mask written as negative (from-the-end) indices"""
     return [i - D if (mask and mask[k]) else i for k, i in enumerate(idx)]
@@ -752,6 +757,7 @@ def run_impl(d):
     if scn == "cond_x":
         xs = jarr(d["xs"])
         o = c.condition_on_x_u(xs, **ckw) if nn else c.condition_on_x(xs)
+        _ = c.condition_on_x_u(xs + 1.0, **ckw) if nn else c.condition_on_x(xs + 1.0)   # a later request must not touch the held result
         obs_all(ob, o, d["ys"])
         # cond(x) is condition_on_x(x); conditioning returns normalised densities; the conditional mean function
         o2 = c(xs, **ckw)
@@ -773,6 +779,7 @@ def run_impl(d):
     if scn == "set_y":
         ys = jarr(d["ys"])
         f = c.set_y(ys, **ckw)
+        c.set_y(0.5 * ys + 1.0, **ckw)          # a later request (same N, other data) must not touch the factor returned before
         N = len(d["ys"])
         ev = None
         try:
@@ -818,6 +825,7 @@ def run_impl(d):
         Dx = d["c"]["Dx"]
         if scn == "joint":
             o = c.affine_joint_transformation(p, **ckw)
+            c.affine_joint_transformation(_shifted(p), **ckw)        # later request with another p(x): the held result stays
             zs = [x + y for x, y in zip(d["xs"], d["ys"])]
             obs_all(ob, o, zs)
             ok = is_normal(fails, o, emu, eSig, zs, site + "affine_joint_transformation", ["C07", "C02"])
@@ -832,12 +840,14 @@ def run_impl(d):
             consistency(fails, o, site + "affine_joint_transformation", pdf=True)
         else:
             o = c.affine_marginal_transformation(p, **ckw)
+            c.affine_marginal_transformation(_shifted(p), **ckw)
             obs_all(ob, o, d["ys"])
             is_normal(fails, o, emu[:, Dx:], eSig[:, Dx:, Dx:], d["ys"], site + "affine_marginal_transformation", ["C08", "C02"])
             consistency(fails, o, site + "affine_marginal_transformation", pdf=True)
         return ob, fails
     if scn == "cond_t":
         o = c.affine_conditional_transformation(p, **ckw)
+        c.affine_conditional_transformation(_shifted(p), **ckw)
         obs_cond(ob, o)
         # Bayes' rule at points: p(x|y) p(y) = p(y|x) p(x), with independent p(y) and p(y|x)p(x)
         emu, eSig = expected_joint(d)
